@@ -642,6 +642,55 @@ def check_amplification(run, ix):
         raise AnalysisError('F-R8: amplification constructs not found (%d)' % n)
 
 
+# --------------------------------------------------------------------------- F-R9
+def check_even_integer_shortcuts(run, ix):
+    """F-R9.  The *pi functions may skip the argument reduction for arguments so large that every double is an
+    even integer.  That is true from 2^53 on; doubles in [2^52, 2^53) are integers of both parities (cospi = +-1)
+    and below 2^52 there are half-integers.  Every `if x >= C: return <constants>` in the reduction helpers must
+    have C >= 2^53."""
+    m2 = ix.module(MATH2)
+    consts = {}
+    for name, value, st, g in m2.toplevel_assigns:
+        if isinstance(value, ast.Constant) and isinstance(value.value, (int, float)):
+            consts[name] = value.value
+        elif isinstance(value, ast.BinOp) and isinstance(value.op, ast.Pow) and \
+                isinstance(value.left, ast.Constant) and isinstance(value.right, ast.Constant):
+            consts[name] = value.left.value ** value.right.value
+    n = 0
+    for f in m2.funcs.values():
+        if not isinstance(f.node, ast.FunctionDef) or not ('pi' in f.name or 'reduce' in f.name):
+            continue
+        for st in _walk_own(f.node):
+            if not (isinstance(st, ast.If) and isinstance(st.test, ast.Compare) and len(st.test.ops) == 1 and
+                    isinstance(st.test.ops[0], (ast.GtE, ast.Gt)) and st.body and isinstance(st.body[-1], ast.Return)):
+                continue
+            left = st.test.left
+            if not (isinstance(left, ast.Name) or (isinstance(left, ast.Attribute) and left.attr == 'real')):
+                continue
+            rv = st.body[-1].value
+            elts = rv.elts if isinstance(rv, ast.Tuple) else [rv]
+            if not all(isinstance(e, ast.Constant) or
+                       (isinstance(e, ast.UnaryOp) and isinstance(e.operand, ast.Constant)) for e in elts):
+                continue
+            c = st.test.comparators[0]
+            val = c.value if isinstance(c, ast.Constant) else consts.get(c.id) if isinstance(c, ast.Name) else None
+            if isinstance(c, ast.BinOp) and isinstance(c.op, ast.Pow) and isinstance(c.left, ast.Constant) and \
+                    isinstance(c.right, ast.Constant):
+                val = c.left.value ** c.right.value
+            if val is None:
+                raise AnalysisError('%s: threshold of the large-argument shortcut is not a constant' % f.qualname)
+            n += 1
+            if val >= 2 ** 53:
+                run.ok('F-R9', '%s: shortcut from %r on (>= 2^53)' % (f.qualname, val))
+            else:
+                run.fail(F('F-R9', MATH2, f.qualname, st,
+                           'the reduction is skipped from %r on, but doubles below 2^53 = 9007199254740992 are not all '
+                           'even integers (odd integers up to 2^53, half-integers up to 2^52): cospi of an odd integer '
+                           'would be +1 instead of -1' % val))
+    if n < 1:
+        raise AnalysisError('F-R9: no large-argument shortcut found in the *pi reduction')
+
+
 # --------------------------------------------------------------------------- F-R7
 def check_no_fallthrough(run, ix):
     """A function of the fp layer that returns a value on some path returns (or raises) on EVERY path:
@@ -801,11 +850,13 @@ def run(run, ix, tier):
     run.rule('F-R5', floor=1)
     run.rule('F-R6', floor=5)
     run.rule('F-R7', floor=60)
+    run.rule('F-R9', floor=1, desc='large-argument shortcut of the *pi functions starts at 2^53')
     run.rule('F-R8', floor=5, desc='error amplification without guard digits')
     check_wrappers(run, ix)
     binds = check_bindings(run, ix)
     nslots = check_fp_table(run, ix)
     check_no_fallthrough(run, ix)
+    check_even_integer_shortcuts(run, ix)
     check_amplification(run, ix)
     nk = check_no_mp_numbers(run, ix)
     run.stats['math2_bindings'] = len(binds)
